@@ -448,6 +448,11 @@ theorem traceOf_encode : ∀ (ty : Ty) (v : Val), wf ty v = true → canon ty v 
     simp only [decodeP, Spec.encode, hookTrace, traceOf_descend, traceOf_alloc]
     rw [traceOf_bind (decode_encode t v h hc hl rest), traceOf_encode t v h hc hl rest, traceOf_ascend]
     simp
+  | .wrap t, v, h, hc, hl, rest => by
+    simp only [wf] at h; simp only [canon] at hc; simp only [layoutOk] at hl
+    simp only [decodeP, Spec.encode, hookTrace, traceOf_descend]
+    rw [traceOf_bind (decode_encode t v h hc hl rest), traceOf_encode t v h hc hl rest, traceOf_ascend]
+    simp
   | .duration, v, h, _hc, _hl, rest => by
     obtain ⟨s, n, rfl, hs, hn⟩ := wf_duration h
     simp only [decodeP, hookTrace]
